@@ -467,6 +467,9 @@ class Executor:
         if name not in self.consts:
             segs = split_path(name)
             hits = [n for n in self.consts if seg_match(segs, split_path(n))]
+            if not hits:
+                # a const declared inside a fn body is dumped under its bare name
+                hits = [n for n in self.consts if n == segs[-1]]
             if len(hits) == 1:
                 name2 = hits[0]
                 val = self.parse_const(self.consts[name2][1], st)
@@ -534,9 +537,20 @@ class Executor:
         if k == "downcast":
             return self.place_ref(fr, place[1])
         if k == "deref":
-            b = self.place_ref(fr, place[1]).get()
+            holder = self.place_ref(fr, place[1])
+            b = holder.get()
             if isinstance(b, Ref):
                 return b
+            if isinstance(b, Opaque) and b.what == "bytes":
+                # a byte-string literal `b"..."` that is indexed: materialise it as an array of its bytes
+                try:
+                    import ast
+                    raw = ast.literal_eval(b.data)
+                except Exception:
+                    raise Unsupported("byte-string literal %r" % (b.data,))
+                r = Ref([Struct(list(raw))])
+                holder.set(r)
+                return r
             raise Unsupported("deref of non-reference %r" % (b,))
         if k == "constindex":
             b = self.place_ref(fr, place[1])
